@@ -1,6 +1,10 @@
 package generator
 
-import "strings"
+import (
+	"strconv"
+	"strings"
+	"unicode/utf8"
+)
 
 func (g *Generator) ClientFile(cfg Config) GoFile {
 	return GoFile{
@@ -50,10 +54,10 @@ func (g *Generator) SpecFile(fileContent []byte) GoFile {
 }
 
 func encodeRawFileAsString(s string) string {
-	if strings.Contains(string(s), "\n") {
-		s = "`" + strings.ReplaceAll(string(s), "`", "`+\"`\"+`") + "`"
-	} else {
-		s = `"` + strings.ReplaceAll(string(s), `"`, `\"`) + `"`
+	// A raw string literal cannot hold carriage returns (Go drops them), NUL,
+	// a byte order mark or invalid UTF-8: quote such content instead.
+	if strings.Contains(s, "\n") && !strings.ContainsAny(s, "\r\x00\ufeff") && utf8.ValidString(s) {
+		return "`" + strings.ReplaceAll(s, "`", "`+\"`\"+`") + "`"
 	}
-	return s
+	return strconv.Quote(s)
 }
